@@ -451,11 +451,11 @@ PROPS["C16"] = {
 }
 PROPS["C17"] = {
     "units": lambda tier, seed: [unit_gzip(SB_BUILD)],
-    "explanation": "streaming_body(&req).build() for Request and Parts, method in {GET, HEAD, POST}, 9 Accept-Encoding values, gzip level a symbolic u32, "
+    "explanation": "streaming_body(&req).build() for Request and Parts, method in {GET, HEAD, POST}, 9 Accept-Encoding values, gzip level symbolic in the documented range 0..=9, "
     "chunk size 1..4: Vary always; Content-Encoding: gzip iff negotiated and level > 0; the writer's arm (gzip encoder vs raw) agrees "
     "with the header; encoder created with the configured level.",
     "functions": ["streaming_body", "StreamingBodyBuilder::build", "gzip::BodyWriter::raw/gzipped"],
-    "bounds": {"Accept-Encoding": "9 values", "level": "all u32"},
+    "bounds": {"Accept-Encoding": "9 values", "level": "0..=9 (the documented domain of with_gzip_level)"},
     "outside": ["the bytes the real flate2 encoder produces (marker model)"],
     "assumptions": MODEL_ASSUMPTIONS,
 }
